@@ -304,14 +304,6 @@ def devGo (op : String) (g : GoVal) : String :=
   match op with
   | "export" => devList [(rejectedPtr g, "pointer_to_container_rejected"), (derefPtr g, "pointer_deref"),
                          (isNamed g, "named_type_erased"), (isPlainF32 g, "float32_widened")]
-  | "toInteger" => devList [(rejectedPtr g, "pointer_to_container_rejected"), (storesF32 g, "float32_payload_panic"),
-                            (uintInexact g, "toInteger_uint_inexact")]
-  | "toFloat" => devList [(rejectedPtr g, "pointer_to_container_rejected"), (storesF32 g, "float32_payload_panic")]
-  | "toBoolean" => devList [(rejectedPtr g, "pointer_to_container_rejected"), (storesF32NaN g, "float32_payload_nan_truthy")]
-  | "toString" => devList [(rejectedPtr g, "pointer_to_container_rejected")]
-  | "marshal" => devList [(rejectedPtr g, "pointer_to_container_rejected"), (nonFinite g, "marshal_nonfinite"),
-                          (negZero g, "marshal_negzero")]
-  | "view" => devList [(rejectedPtr g, "pointer_to_container_rejected"), (storesF32 g, "float32_payload_panic")]
   | _ => devList [(rejectedPtr g, "pointer_to_container_rejected")]
 
 def reply (m s dev : String) : String := m ++ " " ++ s ++ " " ++ dev
@@ -336,10 +328,9 @@ def jsOp (op : String) (j : JS) : Option String :=
   match op with
   | "export" =>      -- structure only
     some (reply (resOut treeOut ((exportV j).map (Spec.erase env))) (resOut treeOut (Spec.exportTree env j))
-      (devList [(clash j, "export_type_clash_panic"), (hasHole j, "export_array_hole")]))
+      (devList [(hasHole j, "export_array_hole")]))
   | "exportT" =>     -- with Go types; the documented typing is []interface{} / map[string]interface{}
-    some (reply (resOut goOut (exportV j)) (resOut goOut (Spec.exportDoc j))
-      (devList [(clash j, "export_type_clash_panic"), (hasHole j, "export_array_hole"), (typedArr j, "export_array_typed")]))
+    some (reply (resOut goOut (exportV j)) (resOut goOut (Spec.exportDoc j)) (devList [(hasHole j, "export_array_hole"), (typedArr j, "export_array_typed")]))
   | "preds" =>
     some (reply (resOut predsOut (predsJS env j)) (resOut predsOut (Spec.preds env j)) "-")
   | "typeof" =>
@@ -404,10 +395,8 @@ def jshOp (op : String) (H : Heap) (v : HVal) : Option String :=
   match op with
   | "export" =>
     let m := exportH H (H.length + 1) [] v
-    -- the clash region on graphs: the Array typing rule (Model.finishArr) panics on a reachable Array
-    let isPanic := match m with | .panic => true | _ => false
     some (reply (resOut treeOut (m.map (Spec.erase env))) (resOut treeOut (Spec.exportGraph env H v))
-      (devList [(isPanic, "export_type_clash_panic"), (heapHole H v, "export_array_hole")]))
+      (devList [(heapHole H v, "export_array_hole")]))
   | _ => none
 
 /-! ### calls -/
